@@ -7,7 +7,8 @@ import RegexVerif.Lemmas.Utf8
 import RegexVerif.Lemmas.Finders
 
 namespace RegexVerif.Lemmas.StringFilter
-open RegexVerif RegexVerif.Utf8 RegexVerif.Finders RegexVerif.StringFilter
+open RegexVerif RegexVerif.Utf8 RegexVerif.StringFilter RegexVerif.Scan
+open RegexVerif.Finders hiding Step fixedStep
 
 /-! ## `decodeRune` -/
 
@@ -1230,5 +1231,540 @@ theorem indexStringIgnoreCaseASCII_spec (s pre : List Nat) :
       have := prefixOf_length _ _ _ hj; simp at this hl; omega
     · simp only [hl, if_false]
       exact isicLoop_spec s c ps (by omega) (s.length + 1) 0 (by omega) (fun j hj => by omega)
+
+/-! ## soundness of a filter answer; the loop rule -/
+
+/-- what a sound answer `(candidate, ok)` from `startAt` is: "no" only if no attempt succeeds at a rune position
+    whose byte offset is `≥ startAt`; a candidate is a rune boundary `≥ startAt` before which (from `startAt`)
+    no attempt succeeds.  Rune positions `p` and byte offsets are related by `byteOff` (one rune per invalid byte). -/
+def FilterPost (s : List Nat) (attempt : Nat → Option (Nat × Nat)) (startAt : Nat) (r : Nat × Bool) : Prop :=
+  (r.2 = false → ∀ p, p ≤ (decodeB s).length → startAt ≤ byteOff s p → attempt p = none) ∧
+  (r.2 = true → Bnd s r.1 ∧ startAt ≤ r.1 ∧
+    ∀ p, p ≤ (decodeB s).length → startAt ≤ byteOff s p → byteOff s p < r.1 → attempt p = none)
+
+/-- a filter is sound on the input `s` for the attempts of a program on the decoded runes of `s` -/
+def StrFilterSound (s : List Nat) (attempt : Nat → Option (Nat × Nat)) (f : Filter) : Prop :=
+  ∀ startAt, Bnd s startAt → FilterPost s attempt startAt (f s startAt)
+
+theorem loop_rule (guard : Nat → Bool) (idx : Nat → Option Nat) (step : Nat → Step)
+    (Inv : Nat → Prop) (Post : Nat × Bool → Prop) (bound : Nat)
+    (hguard : ∀ s, guard s = true → s < bound)
+    (hexit : ∀ s, Inv s → guard s = false → Post (0, false))
+    (hnone : ∀ s, Inv s → guard s = true → idx s = none → Post (0, false))
+    (hsome : ∀ s i, Inv s → guard s = true → idx s = some i →
+      match step i with
+      | .found c => Post (c, true)
+      | .giveUp => Post (0, false)
+      | .next s' => s < s' ∧ Inv s') :
+    ∀ (fuel s : Nat), bound ≤ s + fuel → Inv s → Post (loop guard idx step fuel s) := by
+  intro fuel
+  induction fuel with
+  | zero =>
+    intro s hb hinv
+    unfold loop
+    apply hexit s hinv
+    cases hg : guard s with
+    | false => rfl
+    | true => have := hguard s hg; omega
+  | succ fuel ih =>
+    intro s hb hinv
+    unfold loop
+    cases hg : guard s with
+    | false => simpa using hexit s hinv hg
+    | true =>
+      simp only [if_true]
+      cases hi : idx s with
+      | none => simpa using hnone s hinv hg hi
+      | some i =>
+        have hstep := hsome s i hinv hg hi
+        cases hs : step i with
+        | found q => rw [hs] at hstep; simpa [hs] using hstep
+        | giveUp => rw [hs] at hstep; simpa [hs] using hstep
+        | next s' =>
+          rw [hs] at hstep
+          simp only [hs]
+          exact ih s' (by omega) hstep.2
+
+theorem byteOff_ge (s : List Nat) (k : Nat) (hk : k ≤ (decodeB s).length) : k ≤ byteOff s k := by
+  unfold byteOff
+  have h := Lemmas.Utf8.sum_eq_len_add_extra (((decodeB s).map (·.2)).take k)
+    (fun w hw => width_pos s w (List.mem_of_mem_take hw))
+  rw [h]; simp; omega
+
+/-- the bytes that remain from a rune position are at least as many as the runes that remain -/
+theorem remaining_bytes (s : List Nat) (p : Nat) (hp : p ≤ (decodeB s).length) :
+    byteOff s p + ((decodeB s).length - p) ≤ s.length := by
+  have h1 := byteOff_add s p ((decodeB s).length - p) hp
+  rw [show p + ((decodeB s).length - p) = (decodeB s).length by omega, byteOff_len] at h1
+  have h2 := byteOff_ge (s.drop (byteOff s p)) ((decodeB s).length - p)
+    (by rw [decodeB_drop p s hp]; simp)
+  omega
+
+/-- the first guard of every filter: fewer bytes than `MinRequiredLength` remain -/
+theorem minBytes_false (s : List Nat) (attempt : Nat → Option (Nat × Nat)) (minLen c : Nat)
+    (hM : MinLenSound false (decodeB s).length minLen attempt)
+    (h : hasMinRequiredBytes s c minLen = false) (hc : c ≤ s.length) :
+    ∀ p, p ≤ (decodeB s).length → c ≤ byteOff s p → attempt p = none := by
+  intro p hp hcp
+  cases ha : attempt p with
+  | none => rfl
+  | some m =>
+    exfalso
+    have := Lemmas.Finders.minLen_ltr hM p hp (by rw [ha]; simp)
+    have hr := remaining_bytes s p hp
+    simp only [hasMinRequiredBytes, Bool.and_eq_false_iff, Bool.or_eq_false_iff, decide_eq_false_iff_not] at h
+    omega
+
+/-- **The shared argument of the three fixed-distance filters.**  `Hit k`: the searched item sits at rune `k`.
+    If every match from rune `p` has a hit at `p + d`, the byte search `idx` returns the first hit at or after
+    the search position, on a rune boundary, and the loop resumes no further than one rune behind a rejected
+    hit, then the loop's answer is sound. -/
+theorem fixedLoop_sound (input : List Nat) (attempt : Nat → Option (Nat × Nat)) (minLen d ks : Nat)
+    (hks : ks ≤ (decodeB input).length)
+    (Hit : Nat → Prop) (Good : Nat → Prop) (guard : Nat → Bool) (idx : Nat → Option Nat) (step : Nat → Step) (next : Nat → Nat)
+    (hM : MinLenSound false (decodeB input).length minLen attempt)
+    (hFact : ∀ p, p ≤ (decodeB input).length → attempt p ≠ none → Hit (p + d))
+    (hHitlt : ∀ k, Hit k → k < (decodeB input).length)
+    (hguardB : ∀ s, guard s = true → s < input.length + 1)
+    (hG0 : Good (byteOff input ks))
+    (hexit : ∀ s, Good s → guard s = false → ∀ k, Hit k → s ≤ byteOff input k → False)
+    (hnone : ∀ s, Good s → guard s = true → idx s = none → ∀ k, Hit k → s ≤ byteOff input k → False)
+    (hsome : ∀ s i, Good s → guard s = true → idx s = some i →
+      s ≤ i ∧ step i = fixedStep input (byteOff input ks) d minLen i (next i) ∧
+      ∃ ki, ki < (decodeB input).length ∧ byteOff input ki = i ∧
+        (∀ k, Hit k → s ≤ byteOff input k → i ≤ byteOff input k) ∧
+        i < next i ∧ next i ≤ byteOff input (ki + 1) ∧ Good (next i)) :
+    FilterPost input attempt (byteOff input ks) (loop guard idx step (input.length + 2) (byteOff input ks)) := by
+  have hn := byteOff_le_len input ks
+  apply loop_rule guard idx step
+    (fun s => byteOff input ks ≤ s ∧ Good s ∧
+      ∀ p, ks ≤ p → p ≤ (decodeB input).length → attempt p ≠ none → s ≤ byteOff input (p + d))
+    (FilterPost input attempt (byteOff input ks)) (input.length + 1) hguardB
+  · -- guard fails
+    rintro s ⟨h1, h2, h3⟩ hg
+    refine ⟨fun _ p hp hsp => ?_, fun h => by simp at h⟩
+    cases ha : attempt p with
+    | none => rfl
+    | some m =>
+      exfalso
+      have hne : attempt p ≠ none := by rw [ha]; simp
+      have hkp : ks ≤ p := (byteOff_le_iff input ks p hks hp).mp hsp
+      exact hexit s h2 hg (p + d) (hFact p hp hne) (h3 p hkp hp hne)
+  · rintro s ⟨h1, h2, h3⟩ hg hi
+    refine ⟨fun _ p hp hsp => ?_, fun h => by simp at h⟩
+    cases ha : attempt p with
+    | none => rfl
+    | some m =>
+      exfalso
+      have hne : attempt p ≠ none := by rw [ha]; simp
+      have hkp : ks ≤ p := (byteOff_le_iff input ks p hks hp).mp hsp
+      exact hnone s h2 hg hi (p + d) (hFact p hp hne) (h3 p hkp hp hne)
+  · rintro s i ⟨h1, h2, h3⟩ hg hi
+    obtain ⟨hsi, hstep, ki, hki, hoff, hmin, hnx1, hnx2, hnx3⟩ := hsome s i h2 hg hi
+    rw [hstep]
+    subst hoff
+    have hkski : ks ≤ ki := (byteOff_le_iff input ks ki hks (by omega)).mp (by omega)
+    -- every match from `ks` on has its hit at or after `ki`
+    have hall : ∀ p, ks ≤ p → p ≤ (decodeB input).length → attempt p ≠ none → ki ≤ p + d := by
+      intro p hkp hp hne
+      have hh := hFact p hp hne
+      have := hmin (p + d) hh (h3 p hkp hp hne)
+      exact (byteOff_le_iff input ki (p + d) (by omega) (by have := hHitlt _ hh; omega)).mp this
+    unfold fixedStep
+    rw [candidateStart_spec input ks d ki (by omega) hkski]
+    by_cases hd : ks + d ≤ ki
+    · simp only [hd, if_true]
+      cases hmb : hasMinRequiredBytes input (byteOff input (ki - d)) minLen with
+      | true =>
+        simp only [if_true]
+        refine ⟨fun h => by simp at h, fun _ => ⟨⟨ki - d, by omega, rfl⟩, byteOff_mono input _ _ (by omega), ?_⟩⟩
+        intro p hp hsp hlt
+        cases ha : attempt p with
+        | none => rfl
+        | some m =>
+          exfalso
+          have hne : attempt p ≠ none := by rw [ha]; simp
+          have hkp : ks ≤ p := (byteOff_le_iff input ks p hks hp).mp hsp
+          have := hall p hkp hp hne
+          have := byteOff_mono input (ki - d) p (by omega)
+          omega
+      | false =>
+        simp only [Bool.false_eq_true, if_false]
+        refine ⟨fun _ p hp hsp => ?_, fun h => by simp at h⟩
+        cases ha : attempt p with
+        | none => rfl
+        | some m =>
+          exfalso
+          have hne : attempt p ≠ none := by rw [ha]; simp
+          have hkp : ks ≤ p := (byteOff_le_iff input ks p hks hp).mp hsp
+          have h1' := hall p hkp hp hne
+          have := minBytes_false input attempt minLen _ hM hmb (byteOff_le_len input _) p hp
+            (byteOff_mono input (ki - d) p (by omega))
+          rw [ha] at this; simp at this
+    · simp only [hd, if_false]
+      refine ⟨by omega, by omega, hnx3, ?_⟩
+      intro p hkp hp hne
+      have hh := hFact p hp hne
+      have := byteOff_mono input (ki + 1) (p + d) (by omega)
+      omega
+  · omega
+  · exact ⟨Nat.le_refl _, hG0, fun p hkp hp hne => byteOff_mono input _ _ (by omega)⟩
+
+/-! ## the fixed-distance filters -/
+
+theorem runesOf_ne_nil (lit : List Nat) (hne : lit ≠ []) : runesOf lit ≠ [] := by
+  intro h
+  have : decodeB lit = [] := by simpa [runesOf] using h
+  exact hne ((decodeB_eq_nil lit).mp this)
+
+/-- the runes of a non-empty clean literal at rune `k` of the input: `k` is inside the input and the bytes of the
+    literal stand at the byte offset of `k` -/
+theorem hit_bytes_exact (input lit : List Nat) (k : Nat) (hne : lit ≠ []) (hc : Clean lit)
+    (h : prefixOf eqExact (runesOf lit) ((runesOf input).drop k) = true) :
+    k < (decodeB input).length ∧ lit <+: input.drop (byteOff input k) := by
+  have hk : k < (decodeB input).length := by
+    by_cases hk : k < (decodeB input).length
+    · exact hk
+    · exfalso
+      rw [List.drop_eq_nil_of_le (by rw [runesOf_length]; omega)] at h
+      cases hr : runesOf lit with
+      | nil => exact runesOf_ne_nil lit hne hr
+      | cons r rs => rw [hr] at h; simp [prefixOf] at h
+  refine ⟨hk, bytes_of_runes_exact lit _ hc ?_⟩
+  rw [runesOf_drop input k (by omega)]; exact h
+
+theorem prefix_length_le {l1 l2 : List Nat} (h : l1 <+: l2) : l1.length ≤ l2.length := h.length_le
+
+/-- **`stringFixedDistanceStringFilter`**: if every match has the (clean, non-empty) literal `d` RUNES after its
+    start and `MinRequiredLength` (in runes) is sound, the filter — which walks BYTES — loses no match. -/
+theorem fixedStringFilter_sound (lit : List Nat) (d minLen : Nat) (input : List Nat) (attempt : Nat → Option (Nat × Nat))
+    (hne : lit ≠ []) (hc : Clean lit)
+    (hC : ∀ p, p ≤ (decodeB input).length → attempt p ≠ none → occursAt eqExact (runesOf lit) (runesOf input) (p + d) = true)
+    (hM : MinLenSound false (decodeB input).length minLen attempt) :
+    StrFilterSound input attempt (fixedStringFilterBody lit d minLen) := by
+  rintro _ ⟨ks, hks, rfl⟩
+  unfold fixedStringFilterBody
+  cases hmb : hasMinRequiredBytes input (byteOff input ks) minLen with
+  | false =>
+    simp only [Bool.not_false, if_true]
+    exact ⟨fun _ => minBytes_false input attempt minLen _ hM hmb (byteOff_le_len input ks), fun h => by simp at h⟩
+  | true =>
+    simp only [Bool.not_true, Bool.false_eq_true, if_false]
+    apply fixedLoop_sound input attempt minLen d ks hks
+      (fun k => prefixOf eqExact (runesOf lit) ((runesOf input).drop k) = true) (fun _ => True)
+      _ (idxOf (fun u => lit.isPrefixOf u) input) _ (fun i => i + 1) hM
+    · intro p hp hne'; exact hC p hp hne'
+    · intro k hk; exact (hit_bytes_exact input lit k hne hc hk).1
+    · intro s hg; simp at hg; omega
+    · trivial
+    · intro s _ hg k hk hsk
+      obtain ⟨_, hp⟩ := hit_bytes_exact input lit k hne hc hk
+      have hl := prefix_length_le hp
+      rw [List.length_drop] at hl
+      have hb := byteOff_le_len input k
+      have hpos : 0 < lit.length := List.length_pos_iff.mpr hne
+      simp only [decide_eq_false_iff_not] at hg; omega
+    · intro s _ _ hi k hk hsk
+      obtain ⟨_, hp⟩ := hit_bytes_exact input lit k hne hc hk
+      have := idxOf_none _ input s hi (byteOff input k) hsk
+      rw [List.isPrefixOf_iff_prefix.mpr hp] at this; simp at this
+    · intro s i _ _ hi
+      obtain ⟨h1, h2, h3, h4⟩ := idxOf_some _ input s i hi
+      have hp : lit <+: input.drop i := List.isPrefixOf_iff_prefix.mp h3
+      obtain ⟨ki, hki, hoff⟩ := bnd_of_clean_prefix input lit i hne hc hp
+      have hilt : i < input.length := by
+        have := prefix_length_le hp
+        have : 0 < lit.length := List.length_pos_iff.mpr hne
+        simp at *; omega
+      have hkilt : ki < (decodeB input).length := by
+        by_cases h : ki < (decodeB input).length
+        · exact h
+        · have : ki = (decodeB input).length := by omega
+          rw [this, byteOff_len] at hoff; omega
+      refine ⟨h1, rfl, ki, hkilt, hoff, ?_, by omega, ?_, trivial⟩
+      · intro k hk hsk
+        obtain ⟨_, hpk⟩ := hit_bytes_exact input lit k hne hc hk
+        by_cases hle : i ≤ byteOff input k
+        · exact hle
+        · have := h4 (byteOff input k) hsk (by omega)
+          rw [List.isPrefixOf_iff_prefix.mpr hpk] at this; simp at this
+      · have := byteOff_lt input ki (ki + 1) (by omega) (by omega); omega
+
+/-- an ASCII rune at rune `k`: the byte at the byte offset of `k` is that rune -/
+theorem ascii_at (input : List Nat) (k c : Nat) (h : (runesOf input)[k]? = some c) (hc : c < 128) :
+    k < (decodeB input).length ∧ input[byteOff input k]? = some c ∧ byteOff input (k + 1) = byteOff input k + 1 := by
+  have hk : k < (decodeB input).length := by
+    obtain ⟨hlt, _⟩ := List.getElem?_eq_some_iff.mp h
+    rwa [runesOf_length] at hlt
+  rw [runesOf_get input k hk] at h
+  simp only [Option.some.injEq] at h
+  obtain ⟨t, hu, hw⟩ := ascii_of_decode _ (decodeB_get input k hk).2 (by rw [h]; exact hc)
+  refine ⟨hk, ?_, by rw [byteOff_succ_at input k hk, hw]⟩
+  have := congrArg (·[0]?) hu
+  simp only [List.getElem?_drop, Nat.add_zero, List.getElem?_cons_zero] at this
+  rw [this, h]
+
+/-- a byte below 0x80 stands on a rune boundary -/
+theorem bnd_of_ascii_byte (input : List Nat) (i b : Nat) (h : input[i]? = some b) (hb : b < 128) :
+    ∃ ki, ki < (decodeB input).length ∧ byteOff input ki = i := by
+  have hi : i < input.length := by
+    obtain ⟨hlt, _⟩ := List.getElem?_eq_some_iff.mp h; exact hlt
+  obtain ⟨ki, hki, hoff⟩ := bnd_of_not_cont input i (by omega) (by
+    intro _
+    have : input.getD i 0 = b := by simp [List.getD_eq_getElem?_getD, h]
+    rw [this]; simp [isCont]; omega)
+  refine ⟨ki, ?_, hoff⟩
+  by_cases hh : ki < (decodeB input).length
+  · exact hh
+  · have : ki = (decodeB input).length := by omega
+    rw [this, byteOff_len] at hoff; omega
+
+/-- **`stringFixedDistanceSetFilter`** with an ASCII scanner test `Q` (one of `Chars`, or the `Range`): if every
+    match has a rune satisfying `Q` at `d` runes after its start, the filter loses no match. -/
+theorem setFilter_sound (sc : Scanner) (Q : Nat → Bool) (minLen : Nat) (input : List Nat) (attempt : Nat → Option (Nat × Nat))
+    (hQ : ∀ c, Q c = true → c < 128)
+    (hidx : ∀ u, sc.index u = indexByteP Q u)
+    (hC : ∀ p, p ≤ (decodeB input).length → attempt p ≠ none → memAt Q (runesOf input) (p + sc.distance) = true)
+    (hM : MinLenSound false (decodeB input).length minLen attempt) :
+    StrFilterSound input attempt (setFilterBody sc minLen) := by
+  rintro _ ⟨ks, hks, rfl⟩
+  unfold setFilterBody
+  cases hmb : hasMinRequiredBytes input (byteOff input ks) minLen with
+  | false =>
+    simp only [Bool.not_false, if_true]
+    exact ⟨fun _ => minBytes_false input attempt minLen _ hM hmb (byteOff_le_len input ks), fun h => by simp at h⟩
+  | true =>
+    simp only [Bool.not_true, Bool.false_eq_true, if_false]
+    have hidx' : (fun s => (sc.index (input.drop s)).map (s + ·)) = idxOf (headSat Q) input := by
+      funext s; rw [hidx]; rfl
+    rw [hidx']
+    have hitB : ∀ k, memAt Q (runesOf input) k = true →
+        k < (decodeB input).length ∧ headSat Q (input.drop (byteOff input k)) = true ∧
+        byteOff input (k + 1) = byteOff input k + 1 := by
+      intro k hk
+      unfold memAt at hk
+      cases hg : (runesOf input)[k]? with
+      | none => rw [hg] at hk; simp at hk
+      | some c =>
+        rw [hg] at hk
+        obtain ⟨a1, a2, a3⟩ := ascii_at input k c hg (hQ c hk)
+        exact ⟨a1, (headSat_drop Q input _).mpr ⟨c, a2, hk⟩, a3⟩
+    apply fixedLoop_sound input attempt minLen sc.distance ks hks
+      (fun k => memAt Q (runesOf input) k = true) (fun _ => True)
+      _ (idxOf (headSat Q) input) _ (fun i => i + 1) hM
+    · exact hC
+    · intro k hk; exact (hitB k hk).1
+    · intro s hg; simp at hg; omega
+    · trivial
+    · intro s _ hg k hk hsk
+      obtain ⟨a1, _, a3⟩ := hitB k hk
+      have := byteOff_le_len input (k + 1)
+      simp at hg; omega
+    · intro s _ _ hi k hk hsk
+      have := idxOf_none _ input s hi (byteOff input k) hsk
+      rw [(hitB k hk).2.1] at this; simp at this
+    · intro s i _ _ hi
+      obtain ⟨h1, h2, h3, h4⟩ := idxOf_some _ input s i hi
+      obtain ⟨b, hb, hqb⟩ := (headSat_drop Q input i).mp h3
+      obtain ⟨ki, hkilt, hoff⟩ := bnd_of_ascii_byte input i b hb (hQ b hqb)
+      refine ⟨h1, rfl, ki, hkilt, hoff, ?_, by omega, ?_, trivial⟩
+      · intro k hk hsk
+        by_cases hle : i ≤ byteOff input k
+        · exact hle
+        · have := h4 (byteOff input k) hsk (by omega)
+          rw [(hitB k hk).2.1] at this; simp at this
+      · have := byteOff_lt input ki (ki + 1) (by omega) (by omega); omega
+
+/-! ### `strings.IndexRune` from a rune boundary -/
+
+theorem encodeRune_head (ch : Nat) (h1 : ¬ ch < 0x80) : ∃ b t, encodeRune ch = b :: t ∧ isCont b = false := by
+  unfold encodeRune
+  simp only [h1, if_false]
+  split
+  · exact ⟨_, _, rfl, by simp [isCont]; omega⟩
+  · split
+    · exact ⟨_, _, rfl, by simp [isCont]⟩
+    · split
+      · exact ⟨_, _, rfl, by simp [isCont]; omega⟩
+      · exact ⟨_, _, rfl, by simp [isCont]; omega⟩
+
+theorem lt_len_of_bnd (input : List Nat) (ki i : Nat) (hki : ki ≤ (decodeB input).length) (hoff : byteOff input ki = i)
+    (hi : i < input.length) : ki < (decodeB input).length := by
+  by_cases h : ki < (decodeB input).length
+  · exact h
+  · have : ki = (decodeB input).length := by omega
+    rw [this, byteOff_len] at hoff; omega
+
+theorem indexRune_spec (input : List Nat) (ch s : Nat) (hB : Bnd input s) :
+    (∀ i, (indexRune (input.drop s) ch).map (s + ·) = some i →
+      s ≤ i ∧ ∃ ki, ki < (decodeB input).length ∧ byteOff input ki = i ∧
+        ∀ k, (runesOf input)[k]? = some ch → s ≤ byteOff input k → i ≤ byteOff input k) ∧
+    ((indexRune (input.drop s) ch).map (s + ·) = none →
+      ∀ k, (runesOf input)[k]? = some ch → s ≤ byteOff input k → False) := by
+  unfold indexRune
+  by_cases h1 : ch < 0x80
+  · -- a byte
+    simp only [h1, if_true]
+    have hidx : (indexByte (input.drop s) ch).map (s + ·) = idxOf (headSat (· == ch)) input s := rfl
+    rw [hidx]
+    have hitB : ∀ k, (runesOf input)[k]? = some ch → headSat (· == ch) (input.drop (byteOff input k)) = true := by
+      intro k hk
+      obtain ⟨_, a2, _⟩ := ascii_at input k ch hk h1
+      exact (headSat_drop _ input _).mpr ⟨ch, a2, by simp⟩
+    constructor
+    · intro i hi
+      obtain ⟨a1, a2, a3, a4⟩ := idxOf_some _ input s i hi
+      obtain ⟨b, hb, hqb⟩ := (headSat_drop _ input i).mp a3
+      simp only [beq_iff_eq] at hqb; subst hqb
+      obtain ⟨ki, hkilt, hoff⟩ := bnd_of_ascii_byte input i b hb h1
+      refine ⟨a1, ki, hkilt, hoff, ?_⟩
+      intro k hk hsk
+      by_cases hle : i ≤ byteOff input k
+      · exact hle
+      · have := a4 (byteOff input k) hsk (by omega)
+        rw [hitB k hk] at this; simp at this
+    · intro hi k hk hsk
+      have := idxOf_none _ input s hi (byteOff input k) hsk
+      rw [hitB k hk] at this; simp at this
+  · simp only [h1, if_false]
+    by_cases h2 : ch = 0xFFFD
+    · -- U+FFFD: the `range` loop from `s`
+      simp only [h2, if_true]
+      obtain ⟨ks, hks, rfl⟩ := hB
+      rw [decodeB_drop ks input hks]
+      constructor
+      · intro i hi
+        cases hf : firstSeg (· == 0xFFFD) ((decodeB input).drop ks) 0 with
+        | none => rw [hf] at hi; simp at hi
+        | some j =>
+          rw [hf] at hi
+          simp only [Option.map_some, Option.some.injEq] at hi
+          obtain ⟨k', r, w, g1, g2, g3, g4⟩ := firstSeg_some _ _ 0 j hf
+          have hk'lt : ks + k' < (decodeB input).length := by
+            have := (List.getElem?_eq_some_iff.mp g1).1
+            simp at this; omega
+          have hj : j = byteOff (input.drop (byteOff input ks)) k' := by
+            have e := decodeB_drop ks input hks
+            show j = (((decodeB (input.drop (byteOff input ks))).map (·.2)).take k').sum
+            rw [e]; simpa using g3
+          have hoff : byteOff input (ks + k') = i := by
+            rw [byteOff_add input ks k' hks, ← hj]; exact hi
+          refine ⟨by omega, ks + k', hk'lt, hoff, ?_⟩
+          intro k hk hsk
+          have hklt : k < (decodeB input).length := by
+            have := (List.getElem?_eq_some_iff.mp hk).1; rwa [runesOf_length] at this
+          have hksk : ks ≤ k := (byteOff_le_iff input ks k hks (by omega)).mp hsk
+          rw [← hoff]
+          apply byteOff_mono
+          by_cases hle : ks + k' ≤ k
+          · exact hle
+          · exfalso
+            have hseg : ((decodeB input).drop ks)[k - ks]? = (decodeB input)[k]? := by
+              rw [List.getElem?_drop]; congr 1; omega
+            cases hs : (decodeB input)[k]? with
+            | none =>
+              have := List.getElem?_eq_none_iff.mp hs; omega
+            | some seg =>
+              have hr : seg.1 = 0xFFFD := by
+                unfold runesOf at hk
+                rw [List.getElem?_map, hs] at hk
+                simpa using hk
+              have := g4 (k - ks) seg.1 seg.2 (by omega) (by rw [hseg, hs])
+              rw [hr] at this; simp at this
+      · intro hi k hk hsk
+        cases hf : firstSeg (· == 0xFFFD) ((decodeB input).drop ks) 0 with
+        | some j => rw [hf] at hi; simp at hi
+        | none =>
+          have hklt : k < (decodeB input).length := by
+            have := (List.getElem?_eq_some_iff.mp hk).1; rwa [runesOf_length] at this
+          have hksk : ks ≤ k := (byteOff_le_iff input ks k hks (by omega)).mp hsk
+          cases hs : (decodeB input)[k]? with
+          | none => have := List.getElem?_eq_none_iff.mp hs; omega
+          | some seg =>
+            have hr : seg.1 = 0xFFFD := by
+              unfold runesOf at hk
+              rw [List.getElem?_map, hs] at hk
+              simpa using hk
+            have hmem : seg ∈ (decodeB input).drop ks := by
+              apply List.mem_iff_getElem?.mpr
+              exact ⟨k - ks, by rw [List.getElem?_drop, show ks + (k - ks) = k by omega]; exact hs⟩
+            have := firstSeg_none _ _ 0 hf seg hmem
+            rw [hr] at this; simp at this
+    · simp only [h2, if_false]
+      cases hv : validRune ch with
+      | false =>
+        simp only [Bool.not_false, if_true, Option.map_none]
+        refine ⟨fun i hi => by simp at hi, fun _ k hk _ => ?_⟩
+        have := runesOf_valid input ch (List.mem_of_getElem? hk)
+        rw [hv] at this; simp at this
+      | true =>
+        simp only [Bool.not_true, Bool.false_eq_true, if_false]
+        have hidx : (indexBytes (input.drop s) (encodeRune ch)).map (s + ·) = idxOf (fun u => (encodeRune ch).isPrefixOf u) input s := rfl
+        rw [hidx]
+        have hitB : ∀ k, (runesOf input)[k]? = some ch → (encodeRune ch).isPrefixOf (input.drop (byteOff input k)) = true := by
+          intro k hk
+          exact List.isPrefixOf_iff_prefix.mpr (encode_at input k ch hk h2).2
+        constructor
+        · intro i hi
+          obtain ⟨a1, a2, a3, a4⟩ := idxOf_some _ input s i hi
+          have hp : encodeRune ch <+: input.drop i := List.isPrefixOf_iff_prefix.mp a3
+          obtain ⟨b, t, hbt, hcont⟩ := encodeRune_head ch h1
+          obtain ⟨rest, hrest⟩ := hp
+          have hilt : i < input.length := by
+            have := congrArg List.length hrest
+            rw [hbt] at this; simp at this; omega
+          have hgi : input.getD i 0 = b := by
+            have := getD_drop input i 0
+            rw [← hrest, hbt] at this; simpa using this.symm
+          obtain ⟨ki, hki, hoff⟩ := bnd_of_not_cont input i (by omega) (fun _ => by rw [hgi]; exact hcont)
+          refine ⟨a1, ki, lt_len_of_bnd input ki i hki hoff hilt, hoff, ?_⟩
+          intro k hk hsk
+          by_cases hle : i ≤ byteOff input k
+          · exact hle
+          · have := a4 (byteOff input k) hsk (by omega)
+            rw [hitB k hk] at this; simp at this
+        · intro hi k hk hsk
+          have := idxOf_none _ input s hi (byteOff input k) hsk
+          rw [hitB k hk] at this; simp at this
+
+/-- **`stringFixedDistanceCharFilter`**: if every match has the rune `ch` `d` RUNES after its start — for U+FFFD
+    that includes every invalid byte of the input — the filter loses no match.  (The resumption
+    `searchAt = byteIndex + size` uses the width of the rune actually found: one byte for an invalid byte.) -/
+theorem fixedCharFilter_sound (ch d minLen : Nat) (input : List Nat) (attempt : Nat → Option (Nat × Nat))
+    (hC : ∀ p, p ≤ (decodeB input).length → attempt p ≠ none → (runesOf input)[p + d]? = some ch)
+    (hM : MinLenSound false (decodeB input).length minLen attempt) :
+    StrFilterSound input attempt (fixedCharFilterBody ch d minLen) := by
+  rintro _ ⟨ks, hks, rfl⟩
+  unfold fixedCharFilterBody
+  cases hmb : hasMinRequiredBytes input (byteOff input ks) minLen with
+  | false =>
+    simp only [Bool.not_false, if_true]
+    exact ⟨fun _ => minBytes_false input attempt minLen _ hM hmb (byteOff_le_len input ks), fun h => by simp at h⟩
+  | true =>
+    simp only [Bool.not_true, Bool.false_eq_true, if_false]
+    apply fixedLoop_sound input attempt minLen d ks hks
+      (fun k => (runesOf input)[k]? = some ch) (Bnd input)
+      _ _ _ (fun i => i + (decodeRune (input.drop i)).2) hM hC
+    · intro k hk
+      have := (List.getElem?_eq_some_iff.mp hk).1; rwa [runesOf_length] at this
+    · intro s hg; simp at hg; omega
+    · exact ⟨ks, hks, rfl⟩
+    · intro s _ hg k hk hsk
+      have := byteOff_le_len input k
+      simp at hg; omega
+    · intro s hB _ hi k hk hsk
+      exact (indexRune_spec input ch s hB).2 hi k hk hsk
+    · intro s i hB _ hi
+      obtain ⟨a1, ki, hkilt, hoff, hmin⟩ := (indexRune_spec input ch s hB).1 i hi
+      have hw := decodeRune_size_pos _ (decodeB_get input ki hkilt).2
+      have hsucc := byteOff_succ_at input ki hkilt
+      rw [hoff] at hw hsucc
+      refine ⟨a1, ?_, ki, hkilt, hoff, hmin, by omega, by omega, ⟨ki + 1, by omega, hsucc⟩⟩
+      have hne : ¬ ((decodeRune (input.drop i)).2 = 0) := by omega
+      simp only [hne, if_false]
+      unfold StringFilter.fixedStep
+      cases candidateStart input (byteOff input ks) d i with
+      | none => rfl
+      | some c => simp only; cases hasMinRequiredBytes input c minLen <;> rfl
 
 end RegexVerif.Lemmas.StringFilter
